@@ -238,6 +238,8 @@ func (m *MethodMocker) ExportMethod(name string) UnExportedMocker {
 // 方法的参数签名写法比如: func(s *Struct, arg1, arg2 type), 其中第一个参数必须是接收体类型
 func (m *MethodMocker) Apply(callback interface{}) {
 	m.doApply(callback)
+	// Apply 覆盖之前设定的 When/Return, 之后再调用 When/Return 需重新生效
+	m.when = nil
 }
 
 func (m *MethodMocker) doApply(imp interface{}) {
@@ -381,6 +383,8 @@ func (m *UnexportedMethodMocker) Apply(callback interface{}) {
 
 	callback, _ = interceptDebugInfo(callback, nil, m)
 	m.applyByName(name, callback)
+	// Apply 覆盖之前设定的 When/Return, 之后再调用 When/Return 需重新生效
+	m.when = nil
 	logger.Consolefc(logger.DebugLevel, "mocker [%s] apply.", logger.Caller(5), m.String())
 }
 
@@ -445,6 +449,8 @@ func (m *UnexportedFuncMocker) objName() string {
 func (m *UnexportedFuncMocker) Apply(callback interface{}) {
 	callback, _ = interceptDebugInfo(callback, nil, m)
 	m.applyByName(m.objName(), callback)
+	// Apply 覆盖之前设定的 When/Return, 之后再调用 When/Return 需重新生效
+	m.when = nil
 	logger.Consolefc(logger.DebugLevel, "mocker [%s] apply.", logger.Caller(5), m.String())
 }
 
@@ -492,6 +498,8 @@ func NewDefMocker(pkgName string, funcDef interface{}) *DefMocker {
 // Apply 代理方法实现
 func (m *DefMocker) Apply(callback interface{}) {
 	m.doApply(callback)
+	// Apply 覆盖之前设定的 When/Return, 之后再调用 When/Return 需重新生效
+	m.when = nil
 }
 
 func (m *DefMocker) doApply(imp interface{}) {
